@@ -120,6 +120,7 @@ func init() {
 	regC("C04", 0, "concurrent callers: ack/nack/extend/dead (single and batch) of one caller against dequeue, cancel, requeue and settlements of the other; results and final content must equal some sequential order: a lease that the other caller's call has voided or re-issued never settles the message; 3 in 100 programs under every single-preemption schedule", 2500, 250000)
 	regC("C12", 0, "concurrent callers at a small max_depth (reject and drop_oldest): single and batch enqueues of two callers interleaved statement by statement with dequeues, settlements and operator requeues; admissions, refusals, evictions and the final content must equal some sequential order, so the depth check and the insert (and, for drop_oldest, the eviction) are one step; 3 in 100 programs under every single-preemption schedule", 2500, 250000)
 	regC("C14", 0, "operator mutations against concurrent worker calls: by-id and by-filter cancel / requeue / resume of one caller interleaved statement by statement with dequeues and settlements of the other (one handle, and two handles on the one file as hookaido mcp has); a by-filter call counts as a selection followed by the id-based operation on what was selected, which the other caller may separate - results and final content must equal some order of those steps, so only messages in a state the operation covers at the moment of the update are changed and counted", 2000, 150000)
+	regC("C02", 2, "concurrent callers (one handle, two handles on the one file, + crash in 2 of 10 runs): every kind of store call of two callers interleaved statement by statement; results and final rows must equal some sequential order of the calls, so no interleaving duplicates a message, revives a settled or canceled one, moves it along an edge the state machine does not have or alters its fields; 3 in 100 programs under every single-preemption schedule", 2500, 250000)
 	regC("C05", 3, "concurrent callers (+ crash in 3 of 10 runs): expired leases swept by one caller's dequeue while the other settles or dequeues; no ready message is lost or handed out twice in any interleaving; no deadlock between callers; 3 in 100 programs under every single-preemption schedule", 2500, 250000)
 }
 
